@@ -82,6 +82,11 @@ func (e *c05env) add(name string) int {
 	return len(e.ctrs) - 1
 }
 
+func vfCountFDs() int {
+	ents, _ := os.ReadDir("/proc/self/fd")
+	return len(ents)
+}
+
 func (e *c05env) close() {
 	verifrt.SetPlan(nil)
 	if m := e.f.current.Load(); m != nil {
@@ -468,6 +473,7 @@ func c05Corrupt(t *testing.T) {
 					r.Distinct(verifrt.Hash(d)) // still the damaged image at rest: a few pages
 				}
 			}
+			fds0 := vfCountFDs()
 			for si, s := range steps {
 				if s.Kind == "add" && s.Ctr >= len(e.ctrs) {
 					continue
@@ -529,6 +535,18 @@ func c05Corrupt(t *testing.T) {
 				r.Sample(map[string]any{"case": i, "damage": class, "counters_in_file": len(names)})
 			}
 			e.close()
+			// every file the library opened while coping with the damage is closed
+			// again once its current mapping is released: a descriptor left open
+			// per failed operation would eventually starve the host of descriptors
+			if fds1 := vfCountFDs(); fds1 > fds0+1 {
+				inp := ""
+				if len(damaged) > 0 {
+					inp = vfSaveInput(r, "C05", damaged)
+				}
+				r.Violate("descriptor-leak:"+strings.SplitN(class, "+", 2)[0], fmt.Sprintf("the host made %d telemetry calls on a damaged counter file (class %s) and ended with %d more open file descriptors than before (%d -> %d)", len(steps), class, fds1-fds0, fds0, fds1),
+					verifrt.CaseReplay(i, map[string]any{"class": class, "input": inp}))
+			}
+			r.Hit("descriptors-counted")
 			if os.Getenv("VERIF_DEBUG_MAPS") != "" {
 				mb, _ := os.ReadFile("/proc/self/maps")
 				st, _ := os.ReadFile("/proc/self/status")
